@@ -328,7 +328,7 @@ var c17CNPool = []string{"192.0.2.10", "2001:db8::10", "co.uk", "a_b.c_d.com", "
 
 func c17CNCases(c *mon.Ctx) int {
 	n := len(gen.DNSPool())
-	return n * (n - 1) / 2 * len(c17CNPool)
+	return n * (n - 1) / 2 * len(c17CNPool) * 2
 }
 
 func c17CommonNames(c *mon.Ctx, i int, rng *rand.Rand) {
@@ -337,6 +337,8 @@ func c17CommonNames(c *mon.Ctx, i int, rng *rand.Rand) {
 	}
 	dns := gen.DNSPool()
 	n := len(dns)
+	ev := i%2 == 1 // the EV lints (wildcards, onion names) only run under the EV policy
+	i /= 2
 	cn := c17CNPool[i%len(c17CNPool)]
 	k := i / len(c17CNPool)
 	a := 0
@@ -348,6 +350,13 @@ func c17CommonNames(c *mon.Ctx, i int, rng *rand.Rand) {
 	ea, eb := dns[a], dns[b]
 	spec := gen.TLSLeaf(gen.D(2024, 3, 1), "www.example.com")
 	spec.Subject = gen.Name(gen.A(gen.OIDC, "US"), gen.A(gen.OIDO, "Example Org"), gen.A(gen.OIDCN, cn))
+	if ev {
+		spec.ReplaceExt(gen.ExtPolicies(gen.OIDPolEV))
+		spec.Subject = gen.Name(gen.A(gen.OIDJurC, "US"), gen.A(gen.OIDBizCat, "Private Organization"), gen.A(gen.OIDSerial, "C1234567"), gen.A(gen.OIDC, "US"), gen.A(gen.OIDO, "Example Org"), gen.A(gen.OIDCN, cn))
+		if cn == "" { // no common name attribute at all
+			spec.Subject = gen.Name(gen.A(gen.OIDJurC, "US"), gen.A(gen.OIDBizCat, "Private Organization"), gen.A(gen.OIDSerial, "C1234567"), gen.A(gen.OIDC, "US"), gen.A(gen.OIDO, "Example Org"))
+		}
+	}
 	labels := []string{ea.Label, eb.Label}
 	spec.ReplaceExt(gen.ExtSAN(false, ea.Node(), eb.Node()))
 	dc, err := der.ParseCert(spec.DER())
@@ -355,7 +364,7 @@ func c17CommonNames(c *mon.Ctx, i int, rng *rand.Rand) {
 		return
 	}
 	c.R.Count("common_name_pairs", 1)
-	c17Judge(c, fmt.Sprintf("gen/cn-pair%v under common name %q", labels, cn), dc, "san", sanList, rng, labels)
+	c17Judge(c, fmt.Sprintf("gen/cn-pair%v under common name %q ev=%v", labels, cn, ev), dc, "san", sanList, rng, labels)
 }
 
 // ---- relatives ----
